@@ -186,9 +186,44 @@ static bool cab_line(const std::vector<std::string> &w) {
         std::cout << "P clear size=" << c.size() << " empty=" << (c.empty() ? 1 : 0) << "\n";
     } else if (op == "size" && w.size() == 2) {
         std::cout << "P size=" << c.size() << " empty=" << (c.empty() ? 1 : 0) << "\n";
-    } else if (op == "reserve" && w.size() == 3 && num(w[2], 100000, a)) {
-        c.reserve(a);
-        std::cout << "P ok\n";
+    } else if (op == "reserve" && w.size() == 3 && num64(w[2], a) && (a < 100000 || a >= (1ull << 32))) {
+        if (a < 100000) { c.reserve(a); std::cout << "P ok\n"; }
+        else {
+            // beyond max_size(): std::length_error before any allocation; otherwise the allocation itself fails
+            // (operator new made to throw: nothing that large is really requested).  Strong guarantee: nothing changes
+            const char *what = "none";
+            g_new_hit = false; g_new_fail = a <= c.cells_.max_size() ? 1 : 0;     // (building the length_error itself allocates)
+            try { c.reserve(a); }
+            catch (const std::length_error &) { what = "length_error"; }
+            catch (const std::bad_alloc &) { what = "bad_alloc"; }
+            g_new_fail = 0;
+            std::cout << "P reserve " << (std::string(what) == "none" ? "returned" : "threw") << " size=" << c.size() << "\nM " << what << "\n";
+        }
+    } else if (op == "opd" && w.size() == 5 && num(w[4], g_toks.size(), a) && (w[2] == "at" || w[2] == "free" || w[2] == "upd")) {
+        // tokens derived from the cabinet's own state (id counter, free-list head, number of cells) and an issued token
+        const Token t = g_toks[a];
+        const uint64_t L = c.last_id_, F = c.first_free_, S = c.cells_.size();
+        const std::string &k = w[3];
+        Token d;
+        if (k == "next") d = Token(L + 1, F != std::numeric_limits<size_t>::max() ? F : S);
+        else if (k == "nextid") d = Token(L + 1, t.pos());
+        else if (k == "lastid") d = Token(L, t.pos());
+        else if (k == "idm1") d = Token(t.id() - 1, t.pos());
+        else if (k == "idp1") d = Token(t.id() + 1, t.pos());
+        else if (k == "prev") {
+            d = t;
+            for (size_t j = a; j-- > 0;) if (g_toks[j].id() != 0 && g_toks[j].pos() == t.pos()) { d = g_toks[j]; break; }
+        }
+        else if (k == "zero") d = Token(0, t.pos());
+        else if (k == "posS") d = Token(t.id(), S);
+        else if (k == "posS1") d = Token(t.id(), S - 1);
+        else if (k == "posmax") d = Token(t.id(), std::numeric_limits<size_t>::max());
+        else if (k == "posF") d = Token(t.id(), F);
+        else if (k == "swap") d = Token(t.pos(), t.id());
+        else return false;
+        if (w[2] == "at") std::cout << "P at=" << objn(c.at(d)) << "\n";
+        else if (w[2] == "free") { int *p = c.free(d); std::cout << "P free=" << objn(p) << " size=" << c.size() << "\n"; }
+        else std::cout << "P upd=" << (c.update(d, objp(77)) ? 1 : 0) << "\n";
     } else if (op == "scan" && w.size() == 2) {
         std::vector<std::string> v;
         for (auto &t : g_toks) v.push_back(objn(c.at(t)));
@@ -208,6 +243,9 @@ static bool cab_line(const std::vector<std::string> &w) {
                 if (!num(item.substr(0, colon), 100000, it.k)) return false;
                 if (act == "c") it.kind = 'c';
                 else if (act == "n") it.kind = 'n';
+                else if (act == "e") it.kind = 'e';
+                else if (act == "E") it.kind = 'E';
+                else if (!act.empty() && (act[0] == 'x' || act[0] == 'X')) { it.kind = act[0]; if (!num(act.substr(1), kMaxObj, it.a)) return false; }
                 else if (act == "s") it.kind = 's';
                 else if (!act.empty() && act[0] == 'r') { it.kind = 'r'; if (!num(act.substr(1), 100000, it.a)) return false; }
                 else if (!act.empty() && act[0] == 'a') { it.kind = 'a'; if (!num(act.substr(1), kMaxObj, it.a)) return false; }
@@ -228,6 +266,9 @@ static bool cab_line(const std::vector<std::string> &w) {
         std::vector<std::string> vis, newtoks; std::vector<uint64_t> sorted; uint64_t k = 0, dead = 0, dup = 0;
         const size_t ntok0 = g_toks.size();
         std::vector<Token> fresh;
+        struct CbAbort { };              // an exception that leaves the callback and foreach
+        bool aborted = false;
+        try {
         c.foreach([&](int *p) {
             if (p && g_toks.size() + fresh.size() <= 3000) {
                 bool live = false;
@@ -235,8 +276,11 @@ static bool cab_line(const std::vector<std::string> &w) {
                 if (!live) for (auto &t : fresh) if (c.at(t) == p) { live = true; break; }
                 if (!live) ++dead;
             }
+            vis.push_back(objn(p));
+            sorted.push_back((p >= g_objs && p < g_objs + kMaxObj) ? (uint64_t)(p - g_objs) : (p ? kMaxObj : 0));
+            const uint64_t kk = k++;
             for (auto &e : script) {
-                if (e.k != k) continue;
+                if (e.k != kk) continue;
                 if (e.kind == 'f') c.free(g_toks[e.a]);
                 else if (e.kind == 'u') c.update(g_toks[e.a], objp(e.b));
                 else if (e.kind == 'c') c.clear();
@@ -245,6 +289,29 @@ static bool cab_line(const std::vector<std::string> &w) {
                 else if (e.kind == 'n') {                               // a nested iteration sees exactly the live entries
                     size_t cnt = 0; c.foreach([&](int *) { ++cnt; });
                     if (cnt != c.size()) ++dead;
+                }
+                else if (e.kind == 'e' || e.kind == 'E') {              // reserve() beyond max_size(): length_error, nothing changes
+                    bool threw = false;
+                    try { c.reserve((size_t)1 << 63); } catch (const std::length_error &) { threw = true; }
+                    if (!threw) ++dead;
+                    else if (e.kind == 'E') throw CbAbort();
+                }
+                else if (e.kind == 'x' || e.kind == 'X') {              // alloc() with the next operator new failing
+                    c.cells_.shrink_to_fit();                           // capacity == size: a push_back must allocate (moves the cells)
+                    fresh.reserve(fresh.size() + 1); newtoks.reserve(newtoks.size() + 1);
+                    Token t; bool threw = false;
+                    g_new_hit = false; g_new_fail = 1;
+                    try { t = c.alloc(objp(e.a)); } catch (const std::bad_alloc &) { threw = true; }
+                    g_new_fail = 0;
+                    if (threw) { if (e.kind == 'X') throw CbAbort(); }
+                    else {
+                        bool d = false;
+                        for (auto &o : g_toks) if (o == t) { d = true; break; }
+                        if (!d) for (auto &o : fresh) if (o == t) { d = true; break; }
+                        if (d) ++dup;
+                        fresh.push_back(t);
+                        newtoks.push_back(std::to_string(t.id()) + "." + std::to_string(t.pos()));
+                    }
                 }
                 else {
                     Token t;
@@ -259,16 +326,15 @@ static bool cab_line(const std::vector<std::string> &w) {
                     newtoks.push_back(std::to_string(t.id()) + "." + std::to_string(t.pos()));
                 }
             }
-            vis.push_back(objn(p));
-            sorted.push_back((p >= g_objs && p < g_objs + kMaxObj) ? (uint64_t)(p - g_objs) : (p ? kMaxObj : 0));
-            ++k;
         });
+        } catch (const CbAbort &) { aborted = true; }
         (void)ntok0;
         for (auto &t : fresh) g_toks.push_back(t);
         std::sort(sorted.begin(), sorted.end());
         std::vector<std::string> sv; for (auto x : sorted) sv.push_back(x == kMaxObj ? "?" : std::to_string(x));
         std::cout << "P each " << (script.empty() ? comma(sv) : std::string("*")) << " size=" << c.size() << " deadvisit=" << dead
-                  << " dup=" << dup << "\nM order " << comma(vis) << " toks=" << comma(newtoks) << "\n";
+                  << " dup=" << dup << " abort=" << (aborted ? 1 : 0) << "\nM order " << comma(vis) << " toks=" << comma(newtoks)
+                  << " lastid=" << c.last_id_ << "\n";
     } else return false;
     return true;
 }
@@ -277,7 +343,7 @@ static bool cab_line(const std::vector<std::string> &w) {
 // The probe type's constructor and destructor run a script of operations on the SAME pool:
 // `A h v … a` = alloc for slot h an object of value v whose constructor makes the calls in between;
 // `F h … f` = free the object of slot h, its destructor making the calls in between.
-struct PNode { bool is_alloc; uint64_t h, v; std::vector<PNode> kids; };
+struct PNode { bool is_alloc; uint64_t h, v; std::vector<PNode> kids; bool throws; };
 static void pool_exec(const std::vector<PNode> &nodes);
 
 static uint64_t g_ctor = 0, g_dtor = 0, g_thrown = 0;
@@ -285,15 +351,24 @@ static bool g_probe_throw = false;      // the next Probe constructor exits by a
 struct ProbeError { };
 static std::set<const void *> g_live_addr;
 static bool g_alias = false;
+// block labels: the blocks of the current pool in the order their first constructor was entered (printed on
+// an M line, and only for a pool that never gives blocks back, where an address identifies a block)
+static std::map<const void *, uint64_t> g_blk;
+static bool g_blk_on = true;
 struct Probe {
     uint64_t v; uint64_t pad[3];
     const std::vector<PNode> *dtor_script;
-    Probe(uint64_t x, const std::vector<PNode> *ctor_script) : v(x), dtor_script(nullptr) {
+    Probe(uint64_t x, const std::vector<PNode> *ctor_script, bool throws_after = false) : v(x), dtor_script(nullptr) {
         ++g_ctor; pad[0] = pad[1] = pad[2] = ~x;
+        if (g_blk_on) g_blk.insert(std::make_pair((const void *)this, (uint64_t)g_blk.size()));
         if (g_probe_throw) { g_probe_throw = false; throw ProbeError(); }
         if (!g_live_addr.insert(this).second) g_alias = true;      // storage still in use
         if (ctor_script) pool_exec(*ctor_script);                   // nested calls on the same pool
         if (v != x || pad[1] != ~x) g_alias = true;                 // a nested object was built on top of this one
+        if (throws_after) {                                         // the constructor fails after its nested calls
+            if (g_live_addr.erase(this) != 1) g_alias = true;
+            throw ProbeError();
+        }
     }
     ~Probe() {
         ++g_dtor;
@@ -315,7 +390,10 @@ static void pool_exec(const std::vector<PNode> &nodes) {
         if (n.is_alloc) {
             if (g_slot[n.h] || g_reserved[n.h]) continue;           // not applicable: the call and what it nests are not made
             g_reserved[n.h] = true;
-            Probe *p = g_pool->alloc(n.v, &n.kids);
+            Probe *p = nullptr;
+            // the exception of a constructor is caught by whoever made the call (here: the enclosing constructor's /
+            // destructor's script or the top level); an enclosing constructor that fails as well is flagged itself
+            try { p = g_pool->alloc(n.v, &n.kids, n.throws); } catch (const ProbeError &) { ++g_thrown; }
             g_reserved[n.h] = false;
             g_slot[n.h] = p;
         } else {
@@ -330,14 +408,15 @@ static void pool_exec(const std::vector<PNode> &nodes) {
 static bool pool_parse(const std::vector<std::string> &w, size_t &i, std::vector<PNode> &out, int depth, bool top) {
     while (i < w.size()) {
         if (w[i] == "A") {
-            PNode n{true, 0, 0, {}};
+            PNode n{true, 0, 0, {}, false};
             if (depth >= 16 || i + 2 >= w.size() || !num(w[i + 1], kPoolSlots, n.h) || !num(w[i + 2], 1000000, n.v)) return false;
             i += 3;
             if (!pool_parse(w, i, n.kids, depth + 1, false)) return false;
-            if (i >= w.size() || w[i] != "a") return false;
+            if (i >= w.size() || (w[i] != "a" && w[i] != "t")) return false;
+            n.throws = w[i] == "t";                  // `t`: the constructor throws after its nested calls
             ++i; out.push_back(std::move(n));
         } else if (w[i] == "F") {
-            PNode n{false, 0, 0, {}};
+            PNode n{false, 0, 0, {}, false};
             if (depth >= 16 || i + 1 >= w.size() || !num(w[i + 1], kPoolSlots, n.h)) return false;
             i += 2;
             if (!pool_parse(w, i, n.kids, depth + 1, false)) return false;
@@ -359,6 +438,16 @@ static void pool_status() {
     std::cout << "P pool ctor=" << g_ctor << " dtor=" << g_dtor << " vals=" << vals << " stat=" << st.total_alloc_times << "/"
               << st.total_free_times << "/" << st.peak_alloc_number << "/" << st.peak_free_number << " alias=" << (g_alias ? 1 : 0)
               << " leaked=" << g_leaked << " thrown=" << g_thrown << "\n";
+    std::string blk = "-";
+    if (g_blk_on) {
+        blk.clear();
+        for (uint64_t i = 0; i < kPoolSlots; ++i) {
+            if (i) blk += ",";
+            auto it = g_slot[i] ? g_blk.find(g_slot[i]) : g_blk.end();
+            blk += !g_slot[i] ? std::string("-") : it == g_blk.end() ? std::string("?") : std::to_string(it->second);
+        }
+    }
+    std::cout << "M blk=" << blk << "\n";
 }
 static void pool_free_all() {
     for (auto &p : g_slot) if (p) { p->dtor_script = nullptr; g_pool->free(p); p = nullptr; }
@@ -391,6 +480,7 @@ static bool pool_line(const std::vector<std::string> &w) {
         pool_free_all();
         if (w[2] == "max") g_pool.reset(new tbox::ObjectPool<Probe>());
         else g_pool.reset(new tbox::ObjectPool<Probe>(v));
+        g_blk.clear(); g_blk_on = w[2] == "max";
         pool_status();
     } else if (op == "drop" && w.size() == 3 && (w[2] == "max" || num64(w[2], v))) {
         // ~ObjectPool() with live objects: it must not touch their storage (ASan + the values read by
@@ -398,6 +488,7 @@ static bool pool_line(const std::vector<std::string> &w) {
         for (auto &p : g_slot) if (p) { ++g_leaked; p = nullptr; }
         if (w[2] == "max") g_pool.reset(new tbox::ObjectPool<Probe>());
         else g_pool.reset(new tbox::ObjectPool<Probe>(v));
+        g_blk.clear(); g_blk_on = w[2] == "max";
         pool_status();
     } else if (op == "stat" && w.size() == 2) {
         pool_status();
@@ -407,6 +498,7 @@ static bool pool_line(const std::vector<std::string> &w) {
         if (!num(w[4], kMaxBulk + 1, m) || m > n) return false;
         std::unique_ptr<tbox::ObjectPool<Probe>> pool(w[3] == "max" ? new tbox::ObjectPool<Probe>() : new tbox::ObjectPool<Probe>(v));
         const uint64_t c0 = g_ctor, d0 = g_dtor; const bool alias0 = g_alias; g_alias = false;
+        const bool blk0 = g_blk_on; g_blk_on = false;
         auto line = [&](const char *tag, const std::vector<Probe *> &live, uint64_t base) {
             std::set<const void *> addr; uint64_t bad = 0;
             for (size_t i = 0; i < live.size(); ++i) {
@@ -430,6 +522,7 @@ static bool pool_line(const std::vector<std::string> &w) {
         pool.reset();
         g_alias = alias0 || g_alias;
         g_ctor = c0; g_dtor = d0;         // the counters of the status line belong to the main pool
+        g_blk_on = blk0;
     } else return false;
     return true;
 }
@@ -560,11 +653,16 @@ extern "C" ssize_t write(int fd, const void *p, size_t n) { ssize_t r; return io
 extern "C" ssize_t readv(int fd, const struct iovec *v, int c) { ssize_t r; return io_scripted("readv", fd, r) ? r : real_readv()(fd, v, c); }
 extern "C" ssize_t writev(int fd, const struct iovec *v, int c) { ssize_t r; return io_scripted("writev", fd, r) ? r : real_writev()(fd, v, c); }
 
+// `fd x …`: what the close function does when the operation in progress calls it (operations on the handles)
+struct FNode { std::vector<std::string> w; std::vector<FNode> kids; };
+static const std::vector<FNode> *g_cb_kids = nullptr;
+static void fd_exec(const std::vector<FNode> &nodes);
 static void close_fn(int fd) {
     auto it = g_fd2res.find(fd);
-    if (it == g_fd2res.end()) { g_closed.push_back("?:f"); return; }          // closed twice / never opened: not passed on
-    g_closed.push_back(std::to_string(it->second) + ":f"); g_fd2res.erase(it);
-    real_close()(fd);
+    if (it == g_fd2res.end()) g_closed.push_back("?:f");                      // closed twice / never opened: not passed on
+    else { g_closed.push_back(std::to_string(it->second) + ":f"); g_fd2res.erase(it); real_close()(fd); }
+    const std::vector<FNode> *kids = g_cb_kids; g_cb_kids = nullptr;          // the script belongs to this invocation only
+    if (kids) fd_exec(*kids);
 }
 static void fd_scan() {   // descriptors closed behind the interposer's back (must not happen)
     for (auto it = g_fd2res.begin(); it != g_fd2res.end();) {
@@ -602,25 +700,78 @@ static int fresh_fd() {
     if (fd < 0) { perror("open /dev/null"); abort(); }
     return fd;
 }
-static bool fd_line(const std::vector<std::string> &w) {
+static bool fd_line(const std::vector<std::string> &w, bool quiet);
+// syntactic check of one `fd` operation usable inside `fd x` (same rules as fd_line, nothing executed)
+static bool fd_wellformed(const std::vector<std::string> &w) {
+    uint64_t a = 0, b = 0;
+    if (w.size() < 3) return false;
+    const std::string &op = w[1];
+    auto sl = [&](size_t i, uint64_t &v) { return i < w.size() && num(w[i], kFdSlots, v); };
+    if (op == "new" || op == "reset" || op == "close" || op == "isnb" || op == "cloexec") return w.size() == 3 && sl(2, a);
+    if (op == "open") return w.size() == 4 && sl(2, a) && (w[3] == "fn" || w[3] == "raw" || w[3] == "nullfn");
+    if (op == "openneg") return w.size() == 5 && sl(2, a) && num(w[3], 3, b) && (w[4] == "fn" || w[4] == "raw");
+    if (op == "fopen") return w.size() == 4 && sl(2, a) && (w[3] == "ok" || w[3] == "enoent" || w[3] == "emfile");
+    if (op == "cpc" || op == "mvc") return w.size() == 4 && sl(2, a) && sl(3, b) && a != b;
+    if (op == "cpa" || op == "mva" || op == "swap") return w.size() == 4 && sl(2, a) && sl(3, b);
+    if (op == "nonblock") return w.size() == 4 && sl(2, a) && (w[3] == "0" || w[3] == "1");
+    if (op == "io") {
+        static const std::set<std::string> kinds = {"read", "readv", "write", "writev"}, errs = {"eintr", "eagain", "eio", "epipe", "enospc"};
+        return w.size() == 5 && sl(2, a) && kinds.count(w[3]) && (errs.count(w[4]) || num(w[4], 100000, b));
+    }
+    return false;
+}
+static void fd_exec(const std::vector<FNode> &nodes) {
+    for (auto &n : nodes) {
+        const std::vector<FNode> *saved = g_cb_kids;
+        g_cb_kids = n.kids.empty() ? nullptr : &n.kids;          // what the close function does if THIS operation calls it
+        fd_line(n.w, true);
+        g_cb_kids = saved;
+    }
+}
+static bool fd_line(const std::vector<std::string> &w, bool quiet = false) {
     uint64_t a = 0, b = 0;
     const std::string &op = w[1];
-    struct Rec { Rec() { g_rec = true; } ~Rec() { g_rec = false; } };
+    struct Rec { bool was; Rec() : was(g_rec) { g_rec = true; } ~Rec() { g_rec = was; } };
+    // the old object of a slot dies while the slot already holds a new empty handle (a close function that runs
+    // during the destruction finds eight valid handles)
+    auto renew_slot = [](uint64_t i) { std::unique_ptr<Fd> old(std::move(g_fd[i])); g_fd[i].reset(new Fd()); };
     std::string ret;
-    if (op == "closefail" && w.size() == 4 && num(w[2], 100, a) && (w[3] == "eintr" || w[3] == "eio")) {
+    if (op == "x" && w.size() <= 202) {
+        // parse first (nothing runs when malformed): items `op.arg.arg`, `[ … ]` after close / reset / new
+        std::vector<FNode> prog; std::vector<std::vector<FNode> *> st{&prog};
+        bool can_open = false; int opens = 0;
+        for (size_t i = 2; i < w.size(); ++i) {
+            if (w[i] == "[") { if (!can_open || st.size() > 8) return false; st.push_back(&st.back()->back().kids); can_open = false; }
+            else if (w[i] == "]") { if (st.size() < 2) return false; st.pop_back(); can_open = false; }
+            else {
+                FNode n; n.w.push_back("fd");
+                std::string part; std::istringstream is(w[i]);
+                if (w[i].empty() || w[i].back() == '.' || w[i].find("..") != std::string::npos || w[i][0] == '.') return false;
+                while (std::getline(is, part, '.')) n.w.push_back(part);
+                if (!fd_wellformed(n.w)) return false;
+                if (n.w[1] == "open" || (n.w[1] == "fopen" && n.w[3] == "ok")) ++opens;
+                can_open = n.w[1] == "close" || n.w[1] == "reset" || n.w[1] == "new";
+                st.back()->push_back(std::move(n));
+            }
+        }
+        if (st.size() != 1 || g_nres + opens > 200) return false;
+        { Rec r; fd_exec(prog); }
+        fd_status();
+        return true;
+    } else if (op == "closefail" && w.size() == 4 && num(w[2], 100, a) && (w[3] == "eintr" || w[3] == "eio")) {
         g_closefail = (int)a; g_closefail_errno = w[3] == "eintr" ? EINTR : EIO;
         std::cout << "P ok\n";
         return true;
     } else if (op == "new" && w.size() == 3 && num(w[2], kFdSlots, a)) {
-        Rec r; g_fd[a].reset(); g_fd[a].reset(new Fd());
+        Rec r; renew_slot(a);
     } else if (op == "openneg" && w.size() == 5 && num(w[2], kFdSlots, a) && num(w[3], 3, b) && (w[4] == "fn" || w[4] == "raw")) {
         // what a failed open()/socket() returned: a record is created, nothing may ever be closed for it
-        Rec r; g_fd[a].reset();
+        Rec r; renew_slot(a);
         if (w[4] == "fn") g_fd[a].reset(new Fd(-(int)(b + 1), close_fn)); else g_fd[a].reset(new Fd(-(int)(b + 1)));
     } else if (op == "open" && w.size() == 4 && num(w[2], kFdSlots, a) && (w[3] == "fn" || w[3] == "raw" || w[3] == "nullfn") && g_nres < 200) {
         int fd = fresh_fd();                      // before the old object dies
         g_fd2res[fd] = g_nres++;
-        Rec r; g_fd[a].reset();
+        Rec r; renew_slot(a);
         if (w[3] == "fn") g_fd[a].reset(new Fd(fd, close_fn));
         else if (w[3] == "nullfn") g_fd[a].reset(new Fd(fd, Fd::CloseFunc()));       // an empty std::function: plain ::close
         else g_fd[a].reset(new Fd(fd));
@@ -631,7 +782,7 @@ static bool fd_line(const std::vector<std::string> &w) {
         Fd tmp = Fd::Open(w[3] == "enoent" ? "/nonexistent-dir-c08/none" : "/dev/null", O_RDONLY);
         g_open_emfile = false;
         if (tmp.get() >= 0) g_fd2res[tmp.get()] = g_nres++;
-        g_fd[a].reset(); g_fd[a].reset(new Fd(std::move(tmp)));
+        renew_slot(a); g_fd[a].reset(new Fd(std::move(tmp)));
         if (!tmp.isNull() || tmp.get() != -1) g_closed.push_back("moved-from-not-empty");
     } else if (op == "io" && w.size() == 5 && num(w[2], kFdSlots, a) && (w[3] == "read" || w[3] == "readv" || w[3] == "write" || w[3] == "writev")) {
         static const std::map<std::string, int> errs = {{"eintr", EINTR}, {"eagain", EAGAIN}, {"eio", EIO}, {"epipe", EPIPE}, {"enospc", ENOSPC}};
@@ -653,9 +804,9 @@ static bool fd_line(const std::vector<std::string> &w) {
     } else if (op == "cloexec" && w.size() == 3 && num(w[2], kFdSlots, a)) {
         Rec r; g_fd[a]->setCloseOnExec();
     } else if (op == "cpc" && w.size() == 4 && num(w[2], kFdSlots, a) && num(w[3], kFdSlots, b) && a != b) {
-        Rec r; g_fd[a].reset(); g_fd[a].reset(new Fd(*g_fd[b]));
+        Rec r; renew_slot(a); g_fd[a].reset(new Fd(*g_fd[b]));
     } else if (op == "mvc" && w.size() == 4 && num(w[2], kFdSlots, a) && num(w[3], kFdSlots, b) && a != b) {
-        Rec r; g_fd[a].reset(); g_fd[a].reset(new Fd(std::move(*g_fd[b])));
+        Rec r; renew_slot(a); g_fd[a].reset(new Fd(std::move(*g_fd[b])));
     } else if (op == "cpa" && w.size() == 4 && num(w[2], kFdSlots, a) && num(w[3], kFdSlots, b)) {
         Rec r; *g_fd[a] = *g_fd[b];
     } else if (op == "mva" && w.size() == 4 && num(w[2], kFdSlots, a) && num(w[3], kFdSlots, b)) {
@@ -667,6 +818,7 @@ static bool fd_line(const std::vector<std::string> &w) {
     } else if (op == "close" && w.size() == 3 && num(w[2], kFdSlots, a)) {
         Rec r; g_fd[a]->close();
     } else return false;
+    if (quiet) return true;
     std::cout << ret;
     fd_status();
     return true;
@@ -747,6 +899,7 @@ static void reinit() {
     if (g_pool) pool_free_all();
     g_pool.reset(new tbox::ObjectPool<Probe>());
     g_ctor = g_dtor = 0; g_thrown = 0; g_probe_throw = false; g_alias = false; g_live_addr.clear(); g_leaked = 0;
+    g_blk.clear(); g_blk_on = true;
     g_rec = true;                                       // keep the descriptor table exact while the old handles die
     for (auto &f : g_fd) f.reset();
     for (auto &f : g_fd) f.reset(new Fd());
